@@ -329,3 +329,8 @@ def run(ctx: common.Ctx):
         m, sp = ans.split(" spec ")
         if m.replace("model ", "") != want or sp != want:
             ctx.corr_broken("lean-layout-model-vs-numpy", {"line": line, "answer": ans, "numpy": want})
+
+    # graph-level tie (B) and operator-reading tie (D): exported graphs vs the terms of Model/TGraphFns.lean
+    # (Props/C11Graph.lean: roll_graph_correct, flip_graph_correct, expandDims/squeeze/concat_graph_correct, ...)
+    from .. import tgraph
+    tgraph.run_layout(ctx, 400 if quick else 4000)
